@@ -89,6 +89,7 @@ class BoolCFGLM(LM):
             cfg = add_EOS(cfg, eos=EOS)
         if cfg.R != Boolean:
             cfg = cfg.map_values(lambda x: Boolean(x > 0), Boolean)
+        self.alg = alg
         if alg == "earley":
             from genlm.grammar.parse.earley import Earley
 
@@ -96,7 +97,7 @@ class BoolCFGLM(LM):
         elif alg == "cky":
             from genlm.grammar.parse.cky import CKYLM
 
-            self.model = CKYLM(cfg)
+            self.model = CKYLM(cfg).model
         else:
             raise ValueError(f"unrecognized option {alg}")
         super().__init__(eos=EOS, V=cfg.V)
@@ -114,7 +115,10 @@ class BoolCFGLM(LM):
             AssertionError: If context contains out-of-vocabulary tokens
         """
         assert set(context) <= self.V, f"OOVs detected: {set(context) - self.V}"
-        p = self.model.next_token_weights(self.model.chart(context)).trim()
+        if self.alg == "cky":
+            p = self.model.p_next(tuple(context)).trim()
+        else:
+            p = self.model.next_token_weights(self.model.chart(context)).trim()
         return Float.chart({w: 1 for w in p})
 
     def __call__(self, context):
